@@ -315,7 +315,7 @@ func main() {
 	r.Cases("embedded", r.N(150000, 5000000), opt, embeddedCase)
 	// zero-copy string<->[]byte views in the ToString forms: one pass under -race (implies checkptr)
 	light := tasks(2)
-	r.CasesProc("checkptr", r.N(600, 30000), ev.Opt{Bin: "race", Procs: 8, HangViolation: true, MaxCaseSeconds: 60}, func(c *ev.Case) {
+	mixed := func(c *ev.Case) {
 		switch c.Index % 4 {
 		case 0:
 			roundTripCase(c)
@@ -330,7 +330,13 @@ func main() {
 			}
 			runTask(c, light, k)
 		}
-	})
+	}
+	r.CasesProc("checkptr", r.N(600, 30000), ev.Opt{Bin: "race", Procs: 8, HangViolation: true, MaxCaseSeconds: 60}, mixed)
+	// the same mix on parallel workers of -race children: the first Format / Parse calls of
+	// each process are made by eight goroutines at once (a table filled lazily without
+	// proper synchronisation is reported from the happens-before relation, whether or not
+	// the window is hit), and state shared between independent calls is reported likewise
+	r.CasesProc("race-parallel", r.N(640, 20000), ev.Opt{Bin: "race", Procs: 8, Workers: 8, AlwaysLog: true, HangViolation: true, MaxCaseSeconds: 120}, mixed)
 
 	// kept results, reused argument buffers (parallel, then one uninterrupted sequence at a time)
 	r.Cases("kept", r.N(100000, 2500000), opt, keptCase)
